@@ -17,8 +17,8 @@ broadcast use {group_time, group_byte_keys, vstd::std_specs::hash::group_hash_ax
 // RdbReader::read_key_value_with_type.
 pub struct FerrousError { pub g: Ghost<int> }
 pub type Result<T> = std::result::Result<T, FerrousError>;
-pub enum Item { Str(Seq<u8>), Len(int) }
-pub enum Eff { RPush(int, Seq<u8>, Seq<Seq<u8>>), Expire(int, Seq<u8>, int), XAdd(int, Seq<u8>, StreamId), SAdd(int, Seq<u8>, Seq<Seq<u8>>), HSet(int, Seq<u8>, Seq<(Seq<u8>, Seq<u8>)>), SetStr(int, Seq<u8>, Seq<u8>, Option<int>) }
+pub enum Item { Str(Seq<u8>), Len(int), F64(f64) }
+pub enum Eff { RPush(int, Seq<u8>, Seq<Seq<u8>>), Expire(int, Seq<u8>, int), XAdd(int, Seq<u8>, StreamId), SAdd(int, Seq<u8>, Seq<Seq<u8>>), HSet(int, Seq<u8>, Seq<(Seq<u8>, Seq<u8>)>), SetStr(int, Seq<u8>, Seq<u8>, Option<int>), ZAdd(int, Seq<u8>, Seq<u8>, f64) }
 pub struct RdbReader { pub reads: Ghost<Seq<Item>> }
 pub struct StoreLog { pub effs: Ghost<Seq<Eff>> }
 impl StoreLog {
@@ -43,7 +43,9 @@ impl StoreLog {
         ensures final(self).effs@ == old(self).effs@.push(Eff::HSet(db as int, key@, field_values@.map_values(|p: (Vec<u8>, Vec<u8>)| (p.0@, p.1@)))),
     { unimplemented!() }
     #[verifier::external_body]
-    pub fn zadd(&mut self, db: usize, key: Vec<u8>, member: Vec<u8>, score: f64) -> (r: Result<bool>) { unimplemented!() }
+    pub fn zadd(&mut self, db: usize, key: Vec<u8>, member: Vec<u8>, score: f64) -> (r: Result<bool>)
+        ensures final(self).effs@ == old(self).effs@.push(Eff::ZAdd(db as int, key@, member@, score)),
+    { unimplemented!() }
     #[verifier::external_body]
     pub fn xadd_with_id(&mut self, db: usize, key: Vec<u8>, id: StreamId, fields: HashMap<Vec<u8>, Vec<u8>>) -> (r: Result<()>)
         ensures final(self).effs@ == old(self).effs@.push(Eff::XAdd(db as int, key@, id)),
@@ -59,7 +61,9 @@ impl RdbReader {
         ensures r matches Ok(v) ==> final(self).reads@ == old(self).reads@.push(Item::Str(v@)), r is Err ==> final(self).reads@ == old(self).reads@,
     { unimplemented!() }
     #[verifier::external_body]
-    fn read_f64(&mut self) -> (r: Result<f64>) { unimplemented!() }
+    fn read_f64(&mut self) -> (r: Result<f64>)
+        ensures r matches Ok(x) ==> final(self).reads@ == old(self).reads@.push(Item::F64(x)), r is Err ==> final(self).reads@ == old(self).reads@,
+    { unimplemented!() }
     #[verifier::external_body]
     fn read_length(&mut self) -> (r: Result<usize>)
         ensures r matches Ok(n) ==> final(self).reads@ == old(self).reads@.push(Item::Len(n as int)), r is Err ==> final(self).reads@ == old(self).reads@,
@@ -74,6 +78,18 @@ pub open spec fn list_effs(db: int, key: Seq<u8>, elems: Seq<Seq<u8>>) -> Seq<Ef
 
 pub open spec fn str_record(r0: Seq<Item>, key: Seq<u8>, value: Seq<u8>) -> Seq<Item> { r0.push(Item::Str(key)).push(Item::Str(value)) }
 pub open spec fn ttl_ns(ttl: Option<Duration>) -> Option<int> { match ttl { Some(t) => Some(dur_nanos(t)), None => None } }
+/// member, score, member, score, ... as read; and the ZADDs they become
+pub open spec fn zset_items(ms: Seq<(Seq<u8>, f64)>) -> Seq<Item>
+    decreases ms.len()
+{
+    if ms.len() == 0 { Seq::empty() } else { zset_items(ms.drop_last()).push(Item::Str(ms.last().0)).push(Item::F64(ms.last().1)) }
+}
+pub open spec fn zset_record(key: Seq<u8>, ms: Seq<(Seq<u8>, f64)>) -> Seq<Item> { seq![Item::Str(key), Item::Len(ms.len() as int)] + zset_items(ms) }
+pub open spec fn zset_effs(db: int, key: Seq<u8>, ms: Seq<(Seq<u8>, f64)>) -> Seq<Eff>
+    decreases ms.len()
+{
+    if ms.len() == 0 { Seq::empty() } else { zset_effs(db, key, ms.drop_last()).push(Eff::ZAdd(db, key, ms.last().0, ms.last().1)) }
+}
 /// the items of the pairs of a HASH record: field, value, field, value, ...
 pub open spec fn hash_items(fv: Seq<(Seq<u8>, Seq<u8>)>) -> Seq<Item>
     decreases fv.len()
@@ -134,7 +150,7 @@ impl RdbReader {
 pub fn verif_sid_from_str(s: &str) -> Option<StreamId> { unimplemented!() }
 /// every effect from position `from` on concerns this key of this database
 pub open spec fn only_key(effs: Seq<Eff>, from: int, db: int, key: Seq<u8>) -> bool {
-    forall|i: int| from <= i < effs.len() ==> (match #[trigger] effs[i] { Eff::XAdd(d, k, _) => d == db && k == key, Eff::Expire(d, k, _) => d == db && k == key, Eff::RPush(d, k, _) => d == db && k == key, Eff::SAdd(d, k, _) => d == db && k == key, Eff::HSet(d, k, _) => d == db && k == key, Eff::SetStr(d, k, _, _) => d == db && k == key })
+    forall|i: int| from <= i < effs.len() ==> (match #[trigger] effs[i] { Eff::XAdd(d, k, _) => d == db && k == key, Eff::Expire(d, k, _) => d == db && k == key, Eff::RPush(d, k, _) => d == db && k == key, Eff::SAdd(d, k, _) => d == db && k == key, Eff::HSet(d, k, _) => d == db && k == key, Eff::SetStr(d, k, _, _) => d == db && k == key, Eff::ZAdd(d, k, _, _) => d == db && k == key })
 }
 impl RdbReader {
 //@@ unit load_stream_arm arm src/storage/rdb.rs RdbReader::read_key_value_with_type "op if op == RdbOpcode::Stream as u8"
@@ -182,12 +198,31 @@ impl RdbReader {
 //@@   tail Ok(())
 //@@   params drop "storage: &Arc<StorageEngine>" add "storage: &mut StoreLog"
 //@@   rewrite RFORC 0
+//@@   after "let count = self.read_length()?;"
+//@@|     let ghost r0 = old(self).reads@; let ghost e0 = old(storage).effs@; let ghost mut ms: Seq<(Seq<u8>, f64)> = Seq::empty();
 //@@   loop 0
-//@@|     invariant 0 <= ___n <= ___end, ___end == count,
+//@@|     invariant 0 <= ___n <= ___end, ___end == count, ms.len() == ___n,
+//@@|         self.reads@ =~= r0 + seq![Item::Str(key@), Item::Len(count as int)] + zset_items(ms),
+//@@|         storage.effs@ =~= e0 + zset_effs(db as int, key@, ms),
 //@@|     decreases ___end - ___n,
-    // C10: safety and termination only (see load_stream_arm): whatever count the file names, the arm neither overflows, nor allocates by that
-    // count (elements are pushed one by one as they are read), nor loops for ever
+//@@   at "storage.zadd(db, key.clone(), member, score)?;"
+//@@|     let ghost ms_b = ms; let ghost mm = member@;
+//@@   after "storage.zadd(db, key.clone(), member, score)?;"
+//@@|     proof { ms = ms_b.push((mm, score)); assert(ms.drop_last() =~= ms_b); }
+//@@   after "if let Some(ttl) = ttl"
+//@@|     proof {
+//@@|         assert(self.reads@.subrange(r0.len() as int, self.reads@.len() as int) =~= zset_record(key@, ms));
+//@@|         assert(self.reads@.take(r0.len() as int) =~= r0);
+//@@|         assert(storage.effs@ =~= e0 + zset_effs(db as int, key@, ms) + (match ttl { Some(t) => seq![Eff::Expire(db as int, key@, dur_nanos(t))], None => Seq::<Eff>::empty() }));
+//@@|     }
     fn load_zset_arm(&mut self, storage: &mut StoreLog, db: usize, ttl: Option<Duration>) -> (r: Result<()>)
+        ensures
+            // C09: a ZSET record (key, count, then member string and score alternating) is loaded with one ZADD per pair, member and score exactly as
+            // read, in file order, then the record's TTL
+            r is Ok ==> exists|key: Seq<u8>, ms: Seq<(Seq<u8>, f64)>| #[trigger] zset_record(key, ms) == final(self).reads@.subrange(old(self).reads@.len() as int, final(self).reads@.len() as int)
+                && final(self).reads@.take(old(self).reads@.len() as int) == old(self).reads@
+                && final(storage).effs@ == old(storage).effs@ + zset_effs(db as int, key, ms)
+                    + (match ttl { Some(t) => seq![Eff::Expire(db as int, key, dur_nanos(t))], None => Seq::<Eff>::empty() }),
 //@@ body
 //@@ end
 
@@ -263,6 +298,25 @@ impl RdbReader {
 }
 
 // ---- the writer's side of the same record
+/// MODEL of the skip list for the writer: its (member, score) pairs in rank order (the order itself is C04's subject); len and range_by_rank as
+/// the contracts c04 / shard_zsets assume for them
+pub struct SkipList { pub pairs: Ghost<Seq<(Vec<u8>, f64)>> }
+pub struct RangeResult { pub items: Vec<(Vec<u8>, f64)> }
+impl SkipList {
+    #[verifier::external_body]
+    pub fn len(&self) -> (r: usize) ensures r == self.pairs@.len(), { unimplemented!() }
+    #[verifier::external_body]
+    pub fn range_by_rank(&self, start_rank: usize, end_rank: usize) -> (r: RangeResult)
+        requires start_rank <= end_rank < self.pairs@.len(),
+        ensures r.items@ == self.pairs@.subrange(start_rank as int, end_rank + 1),
+    { unimplemented!() }
+}
+/// member, score, member, score, ... as written
+pub open spec fn zset_witems(ps: Seq<(Vec<u8>, f64)>) -> Seq<WItem>
+    decreases ps.len()
+{
+    if ps.len() == 0 { Seq::empty() } else { zset_witems(ps.drop_last()).push(WItem::Str(ps.last().0@)).push(WItem::F64(ps.last().1)) }
+}
 /// expiry opcode, then the deadline now + ttl in milliseconds, saturating
 pub open spec fn ttl_prefix(o0: Seq<WItem>, now_ms: u64, ttl_ms: int) -> Seq<WItem> {
     o0.push(WItem::Byte(0xFCu8)).push(WItem::U64(if now_ms + ttl_ms <= u64::MAX { (now_ms + ttl_ms) as u64 } else { u64::MAX }))
@@ -275,7 +329,7 @@ pub fn verif_u64_or_max(x: u128) -> (r: u64)
     ensures r == (if x <= u64::MAX { x as u64 } else { u64::MAX }),
 { if x <= u64::MAX as u128 { x as u64 } else { u64::MAX } }
 pub struct IoError { pub g: Ghost<int> }
-pub enum WItem { Byte(u8), Str(Seq<u8>), Len(int), U64(u64) }
+pub enum WItem { Byte(u8), Str(Seq<u8>), Len(int), U64(u64), F64(f64) }
 /// MODEL of RdbWriter<W>: notes what is written, item by item (the byte-level encoders write_string / write_length are C09's codec units)
 pub struct RdbWriter { pub out: Ghost<Seq<WItem>> }
 impl RdbWriter {
@@ -311,6 +365,33 @@ impl RdbWriter {
             // overflow for EVERY ttl (saturating at the greatest deadline); a key without TTL gets no prefix
             ttl is None ==> r is Ok && final(self).out@ == old(self).out@,
             (ttl is Some && r is Ok) ==> exists|now_ms: u64| #[trigger] ttl_prefix(old(self).out@, now_ms, dur_nanos(ttl->Some_0) / 1_000_000) == final(self).out@,
+//@@ body
+//@@ end
+
+    #[verifier::external_body]
+    fn write_f64(&mut self, n: f64) -> (r: std::result::Result<(), IoError>)
+        ensures r is Ok ==> final(self).out@ == old(self).out@.push(WItem::F64(n)),
+    { unimplemented!() }
+
+//@@ unit save_zset_arm arm src/storage/rdb.rs RdbWriter::write_key_value "Value::SortedSet(skiplist)"
+//@@   opt same-return-type
+//@@   tail Ok(())
+//@@   rewrite RT "RdbOpcode::ZSet as u8" "3u8"
+//@@   rewrite RFOR 0 it
+//@@   at "for (member, score) in items"
+//@@|     let ghost o0 = old(self).out@; let ghost ps = skiplist.pairs@; proof { assert(items@ =~= ps); }
+//@@   loop 0
+//@@|     invariant it.seq() == ps, it.history@ =~= it.seq().take(it.index@),
+//@@|         self.out@ =~= o0 + seq![WItem::Byte(3u8), WItem::Str(key@), WItem::Len(ps.len() as int)] + zset_witems(ps.take(it.index@ as int)),
+//@@   loopstart 0
+//@@|     proof { assert(ps[it.index@ as int] == (member, score)); assert(ps.take(it.index@ + 1).drop_last() =~= ps.take(it.index@ as int)); }
+//@@   afterloop 0
+//@@|     proof { assert(ps.take(ps.len() as int) =~= ps); }
+    fn save_zset_arm(&mut self, key: &[u8], skiplist: &SkipList) -> (r: std::result::Result<(), IoError>)
+        requires skiplist.pairs@.len() > 0,     // no key holds an empty sorted set (the key goes with its last member: shard_zsets::zrem, C04)
+        ensures
+            // C09: a sorted set is written as the ZSET type byte, the key, the member count and every (member, score) pair in rank order
+            r is Ok ==> final(self).out@ == old(self).out@ + seq![WItem::Byte(3u8), WItem::Str(key@), WItem::Len(skiplist.pairs@.len() as int)] + zset_witems(skiplist.pairs@),
 //@@ body
 //@@ end
 
